@@ -380,6 +380,10 @@ func (c *c17) closedNodes() {
 				}
 			}
 		}
+		// the node may be built by a constructor of the package whose result the method returns
+		for k := range c17ReturnedNodes(m, 0) {
+			c.closedNodeTypes[k] = true
+		}
 	}
 	c.r.Tables["closed_excellent3_nodes"] = core.SortedKeys(c.closedNodeTypes)
 	c.r.Require("closed_excellent3_nodes", len(c.closedNodeTypes), 9)
@@ -2020,6 +2024,52 @@ func c17R7(p *core.Program, r *core.Report) {
 			r.Bad("R7", key, p.Pos(tablePos), fmt.Sprintf("the migration treats the result of %s(...) as %s, but %s returns %s: a `+` or `-` next to the call is migrated to the wrong kind of arithmetic", name, want, fn.Name(), strings.Join(names, ",")))
 		}
 	}
+}
+
+// c17ReturnedNodes: the node types of package excellent that fn returns a freshly allocated pointer to, followed through
+// the functions of its own package it returns the (statically dispatched) result of.
+func c17ReturnedNodes(fn *ssa.Function, depth int) map[string]bool {
+	out := map[string]bool{}
+	var addVal func(v ssa.Value, seen map[ssa.Value]bool)
+	addVal = func(v ssa.Value, seen map[ssa.Value]bool) {
+		if v == nil || seen[v] {
+			return
+		}
+		seen[v] = true
+		switch x := v.(type) {
+		case *ssa.Phi:
+			for _, e := range x.Edges {
+				addVal(e, seen)
+			}
+		case *ssa.MakeInterface:
+			addVal(x.X, seen)
+		case *ssa.ChangeInterface:
+			addVal(x.X, seen)
+		case *ssa.ChangeType:
+			addVal(x.X, seen)
+		case *ssa.Alloc:
+			if !x.Heap {
+				return
+			}
+			if n, ok := x.Type().(*types.Pointer).Elem().(*types.Named); ok && n.Obj().Pkg() != nil && core.RelPkg(n.Obj().Pkg().Path()) == "excellent" {
+				out[n.Obj().Name()] = true
+			}
+		case *ssa.Call:
+			cf := x.Call.StaticCallee()
+			if cf != nil && len(cf.Blocks) > 0 && depth < 3 && core.FuncPkgPath(cf) == core.FuncPkgPath(fn) && cf.Signature.Results().Len() == 1 {
+				for k := range c17ReturnedNodes(cf, depth+1) {
+					out[k] = true
+				}
+			}
+		}
+	}
+	for _, ret := range core.Returns(fn) {
+		if len(ret.Results) != 1 {
+			continue
+		}
+		addVal(ret.Results[0], map[ssa.Value]bool{})
+	}
+	return out
 }
 
 // c17ReturnedXTypes: the concrete types (names in excellent/types) of the XValues fn returns, followed through the
